@@ -7,8 +7,9 @@ import Fips204.Lemmas.Shapes
 
 What a Lean model of the *source* can carry (partial, named as such): (1) over the inventory of control
 constructs regenerated from every function in the constant-time scope (`Gen.leakSites`: every `if`, `while`,
-`match`, early-exit iterator adaptor, `?`, `continue/break`, with the identifiers of its guard that are not public
-in that function), every construct whose guard mentions secret data is one of the fifteen listed exceptions, each
+`match`, early-exit iterator adaptor, `?`, `continue/break`, and - fourth session - every index expression `x[e]` and every division or
+remainder whose `e` / divisor mentions an identifier that is not public in that function: a table lookup on secret data or a variable-time
+division by it; each with the identifiers of its guard that are not public in that function), every construct whose guard mentions secret data is one of the fifteen listed exceptions, each
 either neutralised by `CTEST` or argued constant on success; a new secret-dependent branch or early exit in any
 scope function changes the inventory and falsifies the theorem.  (2) the `CTEST` neutralisations really make the
 loop trip counts input-independent in the model: the three-byte and half-byte samplers never reject, and an attempt
@@ -40,7 +41,13 @@ def allowList : List (String × String × String) := [
   ("sign_internal", "loop-exit", "continue"),
   ("sign_internal", "loop-exit", "break"),
   ("hint_bit_pack", "loop-exit", "continue"),
-  ("key_gen", "try", "?;")]
+  ("key_gen", "try", "?;"),
+  -- memory addresses computed from non-public identifiers (kind `index`) and divisions by them (kind `divmod`, none at present):
+  -- the challenge positions come from the public commitment hash; `j` counts accepted candidates of public, hash-derived streams and
+  -- advances on every candidate under CTEST (the two neutralisations above)
+  ("sample_in_ball", "index", "usize::from(j[0])"),
+  ("rej_ntt_poly", "index", "j"),
+  ("rej_bounded_poly", "index", "j")]
 
 def sensitive (s : LeakSite) : Bool := !s.secretVars.isEmpty || s.kind == "early-exit" || s.kind == "loop-exit" || s.kind == "try"
 
